@@ -430,6 +430,14 @@ class Shape:
 SHAPE = Shape()
 
 
+class RaisedInFragment(Undecided):
+    """The interpreted fragment reaches a `raise` statement on the analysed configuration."""
+
+    def __init__(self, exc_name):
+        super().__init__(f"raise reached ({exc_name})")
+        self.exc_name = exc_name or "?"
+
+
 class Obj:
     """An opaque object (model, config ...): attributes and items are again opaque; as a scalar it is an atom."""
 
@@ -642,7 +650,8 @@ class Interp:
         elif isinstance(st, ast.FunctionDef):
             self.env[st.name] = Closure(st, self)
         elif isinstance(st, ast.Raise):
-            raise Undecided("raise reached")
+            exc = st.exc.func if isinstance(st.exc, ast.Call) else st.exc
+            raise RaisedInFragment(A.dotted(exc) if exc is not None else "<re-raise>")
         else:
             raise Undecided(f"statement {type(st).__name__}")
 
@@ -865,6 +874,13 @@ class Interp:
             return out if isinstance(e, ast.List) else tuple(out)
         if isinstance(e, (ast.ListComp, ast.GeneratorExp)):
             return self._comp(e.elt, e.generators)
+        if isinstance(e, ast.SetComp):
+            return set(self._comp(e.elt, e.generators))
+        if isinstance(e, ast.DictComp):
+            pairs = self._comp(ast.Tuple(elts=[e.key, e.value], ctx=ast.Load()), e.generators)
+            return {k: v for k, v in pairs}
+        if isinstance(e, ast.Set):
+            return {self.eval(x) for x in e.elts}
         if isinstance(e, ast.Subscript):
             base = self.eval(e.value)
             if isinstance(base, HistSet):
@@ -1007,14 +1023,24 @@ class Interp:
 
                 recv.sort(key=keyof, reverse=rev)
                 return None
-            if isinstance(recv, (set, list)) and f.attr in ("add", "pop", "append", "extend", "index", "count", "copy", "update", "discard"):
+            if isinstance(recv, (set, list)) and f.attr in ("add", "pop", "append", "extend", "index", "count", "copy", "update", "discard", "remove", "insert", "clear", "reverse"):
                 return getattr(recv, f.attr)(*[self.eval(a) for a in e.args])
+            if isinstance(recv, (set, frozenset)) and f.attr in ("union", "intersection", "difference", "symmetric_difference", "issubset", "issuperset", "isdisjoint"):
+                others = []
+                for a in e.args:
+                    v = self.eval(a)
+                    if isinstance(v, dict):
+                        v = list(v.keys())
+                    if not isinstance(v, (list, tuple, set, frozenset)):
+                        raise Undecided(f"set.{f.attr} of a non-collection")
+                    others.append(set(v))
+                return getattr(recv, f.attr)(*others)
             if isinstance(recv, dict) and f.attr == "setdefault":
                 k = self.eval(e.args[0])
                 if k not in recv:
                     recv[k] = self.eval(e.args[1]) if len(e.args) > 1 else None
                 return recv[k]
-            if isinstance(recv, str) and f.attr in ("split", "lower", "upper", "strip", "startswith", "endswith"):
+            if isinstance(recv, str) and f.attr in ("split", "lower", "upper", "strip", "startswith", "endswith", "lstrip", "rstrip", "replace", "removeprefix", "removesuffix", "rsplit", "partition", "rpartition", "find", "rfind", "isdigit", "join", "title", "capitalize"):
                 return getattr(recv, f.attr)(*[self.eval(a) for a in e.args])
             if isinstance(recv, dict) and f.attr in ("items", "keys", "values"):
                 return [tuple(kv) for kv in recv.items()] if f.attr == "items" else (list(recv.keys()) if f.attr == "keys" else list(recv.values()))
@@ -1062,6 +1088,14 @@ class Interp:
         if name in ("power", "pow"):
             return fn("pow", to_poly(ev(args[0])), to_poly(ev(args[1])))
         if name in ("divide", "true_divide", "div"):
+            kwn = {k.arg: k.value for k in e.keywords if k.arg}
+            if "where" in kwn:
+                # numpy semantics: result = a / b where the condition holds, the `out` array elsewhere
+                cond = ev(kwn["where"])
+                if not self.truth(cond):
+                    if "out" not in kwn:
+                        raise Undecided("divide(where=...) without out=: uninitialised result")
+                    return to_poly(ev(kwn["out"]))
             return to_poly(ev(args[0])) / to_poly(ev(args[1]))
         if name in ("multiply", "mul"):
             return to_poly(ev(args[0])) * to_poly(ev(args[1]))
@@ -1207,6 +1241,21 @@ class Interp:
                         out.append(x)
                 return out
             raise Undecided("filter over a non-list")
+        if name in ("int", "float") and isinstance(f, ast.Name) and len(args) == 1:
+            v = ev(args[0])
+            if isinstance(v, str):
+                try:
+                    return Poly.const(int(v)) if name == "int" else to_poly(float(v))
+                except ValueError:
+                    raise _PyRaise("ValueError")
+            if isinstance(v, bool):
+                return Poly.const(int(v))
+            if isinstance(v, Poly):
+                if name == "float" or (v.is_const() and v.const_value().denominator == 1):
+                    return v
+                if v.is_const():
+                    return Poly.const(int(v.const_value()))
+            raise Undecided(f"{name}() of a symbolic value")
         if name == "id" and isinstance(f, ast.Name) and len(args) == 1:
             return Poly.const(id(ev(args[0])))
         if name in ("any", "all") and isinstance(f, ast.Name) and args:
